@@ -73,6 +73,9 @@ def lt : Str → Str → Bool
   | _ :: _, [] => false
   | a :: as, b :: bs => if a.toNat < b.toNat then true else if b.toNat < a.toNat then false else lt as bs
 
+/-- non-strict order used for sorting -/
+def le (a b : Str) : Bool := !lt b a
+
 end Str
 
 /-! ## association lists with Go `m[k] = v` semantics -/
